@@ -14,7 +14,12 @@ spec/Variables.tla        machine: ApplyVar (Sequence step), ApplyCompose, Apply
                           FrameVariableOnly, VarUnchanged, Repeatable; switches ExtendByCompose /
                           CopyVarContext / Variant = combine-via-call, skip-missing give design-level
                           counterexamples.  Configurations a (plain chains), b (nested Compose /
-                          Combine elements), c (data kinds, Combine anywhere in the chain)
+                          Combine elements), c (data kinds, Combine anywhere in the chain), d (THE
+                          ALPHABET OF KEYS: types, names and attribute names that are dotted, prefixes
+                          of one another, one character, with spaces, equal to keys the machinery
+                          writes - a type is an atomic key, KeyKind; invariant TypesAvailable; defect
+                          model PathKeys = carried over with the path-reading context helper; types
+                          that are reserved keys are refuted by TLC, Variables_reserved.cfg)
 spec/Trace_Variables.tla  validation of runs recorded with random variables / attributes
 
 What is compared on the implementation (only what the statement fixes):
@@ -53,6 +58,8 @@ def check_scenario(ctx, chain, start, exp, stats, origin="s2c"):
     if collides:
         sk += "+same-type"
     tag = sk if plain else "nested"
+    # the alphabet of keys: types that are dotted / one character / with spaces / machinery keys
+    tag += vl.alphabet_tag(chain)
     x = vl.dec_data(start["d"])
     # data kinds: None, a tuple, a pair that itself looks like a (data, context) value
     dk = vl.data_kind(x)
@@ -183,12 +190,20 @@ ATTR_NAMES = ["unit", "latex", "range", "title", "scale", "label", "bins", "note
               # names of the element protocol and of Variable's own members
               "run", "fill", "compute", "request", "reset", "fill_into", "var_context"]
 TYPE_NAMES = ["particle", "coordinate", "length", "area", "detector", "energy", "time", "angle", "charge"]
+# the alphabet of keys: dotted, prefixes of one another, one character, with spaces, machinery keys
+# (never name / type / compose as a type; no string is both a type and an attribute name)
+TYPE_ALPHABET = ["detector.near", "detector.near.x", "coordinate.x", "coord", "energy.", ".energy", ".", "a",
+                 "b", " ", "far side", "dim", "combine", "variable", "latex-name", "data", "particle.e+.fast"]
+# (a type with "_" cannot be written in the trace encoding, S splits at "_": S2C has latex_name)
+ATTR_ALPHABET = ["unit.si", "range.min", "latex.name", "u", "two words", "detector.gain", "combined", "names",
+                 "context", "getter.x", "..", "particle "]
+NAME_ALPHABET = ["det.near", "name", "compose", "type", "two words", "a_b", "x.y.z", "_", ".", "dim"]
 WORDS = ["mm", "cm", "e+", "MeV", "x", "far", "near", "a_b", "log", "0", "100", ""]
 
 
-def random_attrs(rnd):
+def random_attrs(rnd, alphabet=False):
     out = {}
-    for name in rnd.sample(ATTR_NAMES, rnd.choice([0, 0, 1, 1, 2, 3])):
+    for name in rnd.sample(ATTR_NAMES + ATTR_ALPHABET if alphabet else ATTR_NAMES, rnd.choice([0, 0, 1, 1, 2, 3])):
         r = rnd.random()
         if r < 0.5:
             out[name] = vl.enc(rnd.choice(WORDS))
@@ -220,15 +235,18 @@ def random_scenario(rnd):
 
 def _random_scenario(rnd, kinds):
     n = rnd.randint(1, 5)
-    types = rnd.sample(TYPE_NAMES, n + 2)
+    # one scenario in three draws types, names and attribute names from the alphabet of keys as well
+    alphabet = rnd.random() < 0.35
+    types = rnd.sample(TYPE_NAMES + TYPE_ALPHABET if alphabet else TYPE_NAMES, n + 2)
     if kinds:
         getters = [rnd.choice(KIND_GETTERS) if rnd.random() < 0.7 else rnd.choice(INT_GETTERS) for _ in range(n)]
     else:
         getters = rnd.sample(INT_GETTERS, n)
-    names = rnd.sample(["positron", "x", "y", "mm", "sq", "far", "E", "t", "phi", "q"], n + 2)
+    names = rnd.sample(["positron", "x", "y", "mm", "sq", "far", "E", "t", "phi", "q"]
+                       + (NAME_ALPHABET if alphabet else []), n + 2)
 
     def var(j):
-        return {"k": "var", "ch": [], "v": {"name": [names[j]], "type": types[j], "attrs": random_attrs(rnd),
+        return {"k": "var", "ch": [], "v": {"name": vl.enc(names[j])["l"], "type": types[j], "attrs": random_attrs(rnd, alphabet),
                                             "g": getters[j] if j < n else "inc"}}
     plain = [var(j) for j in range(n)]
     if rnd.random() < 0.2:
@@ -260,7 +278,7 @@ def _random_scenario(rnd, kinds):
         # sometimes the pre-existing variable has the type of a chain member (first/middle/last)
         otype = types[rnd.randrange(n)] if rnd.random() < 0.3 else types[n]
         old = lena.variables.Variable(names[n], lambda x: x, type=otype, **dict(
-            (k, vl.dec(v)) for k, v in random_attrs(rnd).items()))
+            (k, vl.dec(v)) for k, v in random_attrs(rnd, alphabet).items()))
         val = old((0, {}))
         if rnd.random() < 0.5:
             older = lena.variables.Variable(names[n + 1], lambda x: x, type=types[n + 1])
@@ -300,7 +318,11 @@ def demo_defect_models(ctx):
                            ("Variables_viacall.cfg", "Variant=combine-via-call (Combine's getter goes through the "
                             "members' public call: data that looks like a value is split again)", "CombineTuple"),
                            ("Variables_skipnone.cfg", "Variant=skip-missing (__call__ leaves data None untouched, "
-                            "the getters of Compose / Combine do not)", "DataEq")):
+                            "the getters of Compose / Combine do not)", "DataEq"),
+                           ("Variables_pathkeys.cfg", "PathKeys=TRUE (descriptions of earlier types carried over with "
+                            "a helper that reads a key as a dot-separated path: a dotted type is lost)", "TypesAvailable"),
+                           ("Variables_reserved.cfg", "a variable whose type is the reserved key 'name' (the statement "
+                            "contradicts itself: outside the quantifier)", "TypedDeclarative")):
         res = ctx.mc("Variables", cfg, expect_violation="report")
         if res.exit == 0 or res.violated != inv:
             raise core.MachineryError("defect model %s does not violate %s (exit %s, %s)"
@@ -358,7 +380,9 @@ def run(ctx):
 def _run(ctx):
     tag = "thorough" if ctx.thorough else "quick"
     ctx.assume("variables of a chain have pairwise distinct non-empty types; attribute names differ from "
-               "name/type/compose/combine/dim and from type names")
+               "name/type/compose/combine/dim and from type names; no type is one of the keys name / type / compose "
+               "(the statement contradicts itself there: TLC refutes the closed form, Variables_reserved.cfg); "
+               "any other string may be a type, a name or an attribute name")
     ctx.assume("getters are taken from a fixed table (integer functions; producers of None, pairs and hits; "
                "first / len / layer; default-for-None, is-None); a chain is applied to a starting value when no "
                "getter raises on the way; Combine(chain) when every member can take the starting data")
@@ -368,7 +392,9 @@ def _run(ctx):
              "untyped_after_typed_differs": 0}
     # a: plain chains, b: nested Compose / Combine elements, c: data kinds (None, tuples, data that looks
     # like a (data, context) pair; Combine anywhere in the chain)
-    cfgs = ["Variables_%s_a.cfg" % tag, "Variables_%s_b.cfg" % tag, "Variables_%s_c.cfg" % tag]
+    # d: the alphabet of keys (types / names / attribute names: dotted, prefixes, one character, spaces,
+    # machinery keys)
+    cfgs = ["Variables_%s_%s.cfg" % (tag, x) for x in "abcd"]
     # design level in background threads; -coverage (slow) on a small configuration
     # quick tier: the export configurations carry the invariants themselves (one exploration per
     # configuration); thorough tier: separate model-checking runs with many workers
@@ -380,6 +406,7 @@ def _run(ctx):
     exports = [Exporter(ctx, cfg) for cfg in cfgs]
     for exp in exports:
         recs = exp.result()
+        check_key_kinds(recs, stats)
         for r in recs:
             check_scenario(ctx, r["chain"], r["start"], r, stats)
         ctx.sample({"spec_behaviour": _brief(recs[len(recs) // 2])})
@@ -396,10 +423,24 @@ def _run(ctx):
              "nested Compose/Combine elements over 3; thorough: 1..5 of 5, nested over 4) x 6 starting contexts x "
              "2 data values, and chains of size 1..3 (1..4) over 6 (8) variables and 4 (13) Combines producing / "
              "taking None, tuples and data that looks like a (data, context) pair x starting data integer / None / "
-             "hit (/ tuple), executed as Sequence, Compose and Combine on the real classes, twice; C2S: seeded "
+             "hit (/ tuple), and chains of size 1..3 (1..4) over 7 (9) variables whose types / names / attribute "
+             "names come from the alphabet of keys (dotted, prefixes of one another, one character, with spaces, "
+             "machinery keys) with 4 nested elements x 3 starting contexts, executed as Sequence, Compose and Combine on the real classes, twice; C2S: seeded "
              "random variables with random attribute dictionaries, chains 1..5, a third with the data kinds, "
              "validated by Trace_Variables",
         exhaustive=True)
+
+
+def check_key_kinds(recs, stats):
+    """Binding of Variables!KeyKind: the class the specification gives to every type / attribute name
+    of a scenario is the class of the string the harness hands to lena."""
+    for r in recs:
+        kk = r.get("keykinds") or {}
+        for key, kind in (kk.items() if isinstance(kk, dict) else ()):
+            if vl.key_kind(key) != kind:
+                raise core.MachineryError("Variables!KeyKind says %r is %s, the string is %s"
+                                          % (key, kind, vl.key_kind(key)))
+            stats["keys_" + kind] = stats.get("keys_" + kind, 0) + 1
 
 
 def corrupt(r):
